@@ -223,8 +223,9 @@ def run_qr(c, u):
     A[0] = np.array(bases)
     A[1:] = fills((M, N), D, P, M + 2 * N + D)
     sc = 2.0 ** -60
-    for name, f, kw in [('qr', UTPM.qr, {'epsilon': 1e-14 * sc})] + ([('qr_full', UTPM.qr_full, {})] if M >= N else []):
-        case = {'fn': name, 'D': D, 'scale': '2^-60'}
+    for name, f, kw, sc in [('qr', UTPM.qr, {'epsilon': 1e-14 * sc}, sc), ('qr', UTPM.qr, {}, 2.0 ** -30)] + ([('qr_full', UTPM.qr_full, {}, sc), ('qr_full', UTPM.qr_full, {}, 2.0 ** -30)] if M >= N else []):
+        # 2^-60 with the documented threshold scaled as well; 2^-30 (1e-9) with the DEFAULT threshold 1e-14, far below the data
+        case = {'fn': name, 'D': D, 'scale': '2^-60' if sc < 1e-12 else '2^-30, default epsilon'}
         c.out['evals'] += 1
         c.out['keys'] += ['%s|scaled|%d|%d|%d|%d' % (name, M, N, D, u['lo'])]
         try:
@@ -695,10 +696,16 @@ def run_patterns(c, u):
     for A0 in [np.array([[3.0, 1.0, 0.0], [-1.0, 1.5, 1.0], [0.0, 1.0, 0.5]]), np.array([[3.0, 1.0, -1.0], [0.0, 1.5, 1.0]])]:
         jobs.append(('svd', A0, False))
     for name, A0, sym in jobs:
-        for lay in ('C', 'F', 'strided'):
+        for lay in ('C', 'F', 'strided', 'same-shape view', 'flipped view'):
             A = build(A0, sym, 3 + len(name))
             if lay == 'C':
                 x = UTPM(A.copy())
+            elif lay == 'same-shape view':
+                store = A.copy()
+                x = UTPM(store[:store.shape[0]])           # a view whose base has the very same shape
+            elif lay == 'flipped view':
+                store = np.ascontiguousarray(A[:, :, ::-1, :])
+                x = UTPM(store[:, :, ::-1, :])               # same values, rows read backwards from a same-shape base
             elif lay == 'F':
                 x = UTPM(np.ascontiguousarray(np.swapaxes(A, -1, -2))).T
             else:
